@@ -157,7 +157,7 @@ def coq_make(targets, timeout=1500, jobs=16):
         return rc == 0, out
 
 
-def coqc_capture(vfile, timeout=600):
+def coqc_capture(vfile, timeout=1800):
     """Compile one file directly (dependencies must be built); returns (ok, stdout+stderr)."""
     rc, out = sh(["timeout", str(timeout), "coqc", "-Q", ".", "AV", vfile], cwd=COQ, timeout=timeout + 30)
     return rc == 0, out
